@@ -70,11 +70,15 @@
                              that already holds another voucher): res as in kind 6; the voucher's
                              fields after consumption
 
-   19 kt region <orig> <mut> cls eq_any eq_all remeq selfok crossok
+   19 kt region <orig> <mut> <derived> cls eq_any eq_all remeq selfok crossok
                              MarshalPrivateKey(sk) = orig, one edit of it = mut (region: 0 none,
                              1 protobuf framing, 2 Ed25519 seed, 3 Ed25519 public half, 4 other key
                              data, 5 truncation, 6 extension, 7 legacy 96-byte Ed25519 form, 8 legacy
-                             form with diverging copies of the public half); UnmarshalPrivateKey(mut):
+                             form with diverging copies of the public half, 9 a standard-library Ed25519 key
+                             with an altered seed imported with KeyPairFromStdKey: cls = 4, mut = its
+                             MarshalPrivateKey; only the equality clause applies); derived = for an Ed25519
+                             blob, the public key of its first 32 data bytes (ed25519.NewKeyFromSeed,
+                             computed by the harness), else empty; UnmarshalPrivateKey(mut):
                              cls as in kind 8; when accepted: eq_any / eq_all = some / all of
                              Equals (both directions) and KeyEqual say "equal to sk", remeq =
                              MarshalPrivateKey(parsed) = orig, selfok = a signature made with the
@@ -367,11 +371,11 @@ Definition monitor7 (same : Z) (m s m2 s2 : bytes) (res : Z) : list Z :=
 Definition monitor19 (untouched : bool) (cls eqany eqall remeq selfok crossok : Z) : list Z :=
   first_fail
     [ (* marshalling then unmarshalling yields an equal key *)
-      (negb untouched || ((cls =? 3) && (eqall =? 1) && (remeq =? 1)), 190);
+      (negb untouched || (((cls =? 3) || (cls =? 4)) && (eqall =? 1) && (remeq =? 1)), 190);
       (* a key reported equal to the original is interchangeable with it: what it signs
          verifies under the original public key (an equal encoding is not demanded: RSA keeps a
          redundant private exponent next to the CRT values it signs with) *)
-      (negb ((cls =? 3) && (eqany =? 1)) || (crossok =? 1), 191);
+      (negb (((cls =? 3) || (cls =? 4)) && (eqany =? 1)) || (crossok =? 1), 191);
       (* whatever unmarshals signs for its own public key *)
       (negb (cls =? 3) || (selfok =? 1), 192) ] viol.
 
@@ -521,21 +525,22 @@ Definition conform_case (l : list Z) : list Z :=
   | [13; bits; priv; cls; rt] =>
       if Bool.eqb (cls =? 3) (rsa_ok bits) then [] else mism 131
   | 19 :: kt :: region :: r =>
-      match (do (orig, r1) <- get_bytes r; do (mut, r2) <- get_bytes r1;
-             match r2 with [cls; eqany; eqall; remeq; selfok; crossok] => Some (orig, mut, cls, eqany) | _ => None end) with
-      | Some (orig, mut, cls, eqany) =>
+      match (do (orig, r1) <- get_bytes r; do (mut, r2a) <- get_bytes r1; do (derived, r2) <- get_bytes r2a;
+             match r2 with [cls; eqany; eqall; remeq; selfok; crossok] => Some (orig, mut, derived, cls, eqany) | _ => None end) with
+      | Some (orig, mut, derived, cls, eqany) =>
+          if cls =? 4 then [] else     (* imported, not unmarshalled: no prediction *)
           match parse_privkey mut with
           | Some (t, d) =>
               if negb (key_type_ok t) then (if cls =? 1 then [] else mism 191)
               else if N.eqb t 1 then
                 (* Ed25519: acceptance and equality are decided by the two halves *)
-                match ed25519_priv_parts d with
+                match ed25519_priv_parts (fun _ => derived) d with
                 | Some parts =>
                     first_fail
                       [ (cls =? 3, 192);
                         (match parse_privkey orig with
                          | Some (1%N, d0) =>
-                             match ed25519_priv_parts d0 with
+                             match ed25519_priv_parts_unchecked d0 with
                              | Some parts0 => Bool.eqb (eqany =? 1) (ed25519_priv_equal parts parts0)
                              | None => true
                              end
@@ -700,7 +705,7 @@ Definition monitor_case (l : list Z) : list Z :=
       (* every size that can be generated unmarshals and round-trips *)
       if rsa_ok bits && negb ((cls =? 3) && (rt =? 1)) then viol 131 else []
   | 19 :: kt :: region :: r =>
-      match (do (orig, r1) <- get_bytes r; do (mut, r2) <- get_bytes r1;
+      match (do (orig, r1) <- get_bytes r; do (mut, r2a) <- get_bytes r1; do (derived, r2) <- get_bytes r2a;
              match r2 with
              | [cls; eqany; eqall; remeq; selfok; crossok] => Some (orig, mut, cls, (eqany, eqall, remeq, (selfok, crossok)))
              | _ => None
